@@ -1,5 +1,6 @@
 import errno
 import io
+import os
 import sys
 from abc import ABC, abstractmethod
 from enum import Enum
@@ -240,6 +241,15 @@ class OutputFiles:
             raise ValueError("Cannot write to two files when interleaved is True")
         if len(paths) == 1 and paths[0] == "-" and force_fasta:
             kwargs["fileformat"] = "fasta"
+        else:
+            # Decide the format from the file name(s) here, so that it does not
+            # depend on the kind of file object the writer is later given
+            # (compressed stream, in-memory buffer of a worker process)
+            formats = {
+                detect_format_from_name(path) for path in paths if path is not None
+            }
+            if len(formats) == 1:
+                kwargs["fileformat"] = formats.pop()
         if paths == (None,):
             paths = ("-",)
         for path in paths:
@@ -292,6 +302,24 @@ class OutputFiles:
                 f.close()
         for bf in self._binary_files_to_close:
             bf.close()
+
+
+def detect_format_from_name(path) -> Optional[str]:
+    """
+    Return 'fasta' or 'fastq' if the file name (before a compression extension)
+    has a FASTA or FASTQ extension, None otherwise (same rules as dnaio)
+    """
+    name = os.fspath(path).lower()
+    for ext in (".gz", ".xz", ".bz2", ".zst"):
+        if name.endswith(ext):
+            name = name[: -len(ext)]
+            break
+    name, ext = os.path.splitext(name)
+    if ext in (".fasta", ".fa", ".fna", ".csfasta", ".csfa"):
+        return "fasta"
+    elif ext in (".fastq", ".fq") or (ext == ".txt" and name.endswith("_sequence")):
+        return "fastq"
+    return None
 
 
 class FileFormat(Enum):
